@@ -1215,6 +1215,18 @@ fn mutate_post(ctx: &mut Ctx, spdc: &mut SPDC, crystal: &CrystalType, which: usi
   }
 }
 
+/// the statement's wavelength domain: pump, signal and the idler that energy conservation dictates inside the window
+/// (e.g. a swap of signal and idler after the pump was moved can leave it)
+fn wavelengths_in_window(spdc: &SPDC, c: &CrystalType) -> bool {
+  let (lo, hi) = window(c);
+  let (ls, lp) = (l_of(&spdc.signal), l_of(&spdc.pump));
+  if !(ls > lp * 1.00005) {
+    return false;
+  }
+  let li = ls * lp / (ls - lp);
+  [ls, lp, li].iter().all(|l| *l >= lo && *l <= hi)
+}
+
 fn state_is_finite(spdc: &SPDC) -> bool {
   let pp_ok = match &spdc.pp {
     PeriodicPoling::Off => true,
@@ -1254,7 +1266,7 @@ fn setter_session(ctx: &mut Ctx, spdc0: &SPDC, cr: &[CrystalType]) {
       let which = ctx.rng.below(N_PRE);
       let keep = spdc.clone();
       match mutate_pre(ctx, &mut spdc, &crystal, which) {
-        Some((name, token)) if state_is_finite(&spdc) && l_of(&spdc.signal) > l_of(&spdc.pump) => {
+        Some((name, token)) if state_is_finite(&spdc) && wavelengths_in_window(&spdc, &crystal) => {
           last = name;
           hist.push('>');
           hist.push_str(&token);
